@@ -333,6 +333,8 @@ func specs(tier string) []spec {
 	return out
 }
 
+func Scenarios(tier string) []*engine.Scenario { return scenarios(tier) }
+
 func scenarios(tier string) []*engine.Scenario {
 	var out []*engine.Scenario
 	for _, s := range specs(tier) {
